@@ -30,5 +30,8 @@ THEOREMS = {
             "Obligations.backendA_C08_structure", "Obligations.C08_extracted", "Obligations.C08_removed_extracted",
             "Obligations.C08_witnesses_extracted"],
 }
-MODULES = {"C03": ["QuillModel.Props.C03"], "C10": ["QuillModel.Props.C10"], "C08": ["QuillModel.Props.C08"]}
+MODULES = {"C03": ["QuillModel.Props.C03"], "C10": ["QuillModel.Props.C10", "QuillModel.Obligations.CodecStore"], "C08": ["QuillModel.Props.C08"]}
+# C10 also rests on the codec fact that every statement is decoded into an EMPTY argument store (an unformattable statement is
+# reported instead of borrowing another statement's arguments): theorem + extraction obligation of the codec bundle
+THEOREMS["C10"] = THEOREMS["C10"] + ["Codec.C04_store_per_statement", "Obligations.codec_store_reset", "Obligations.C04_store_extracted"]
 OBLIG = ["QuillModel.Obligations.BackendA"]
